@@ -1,7 +1,7 @@
 (* ApiRoot.v — correspondence entry points for C09.  Definitions only.
    DIVIDE_BY_ZERO and SQRT_OF_NEGATIVE are both printed as the empty byte string. *)
 From Coq Require Import ZArith List Bool.
-From Mpir Require Import Word MpzDefs DivDefs RootDefs ApiBasic ApiDiv.
+From Mpir Require Import Word Limbs MpzDefs DivDefs SqrtDefs RootDefs ApiBasic ApiDiv.
 Import ListNotations.
 Local Open Scope Z_scope.
 
@@ -17,3 +17,11 @@ Definition api_mpz_perfect_power_p : api := fun a => [TZ (b2z (mpz_perfect_power
 Definition api_mpn_sqrtrem : api := fun a =>
   let '(s, r) := mpn_sqrtrem (argz a 1) in
   [TZ s; if argz a 2 =? 1 then TZ (b2z (negb (r =? 0))) else TZ r].
+
+(* mpn_sqrtrem_c nn X mode : the same call as mpn_sqrtrem, the model being sqrtrem.c AS CODED (SqrtDefs.v: normalisation shift,
+   sqrtrem1 / sqrtrem2 / dc_sqrtrem with their carries, un-normalising the root and recomputing the remainder) *)
+Definition api_mpn_sqrtrem_c : api := fun a =>
+  match SqrtDefs.mpn_sqrtrem_limbs (limbs_of_Z (argz a 1)) with
+  | Some (s, r) => [TZ (Limbs.eval s); if argz a 2 =? 1 then TZ (b2z (negb (Limbs.eval r =? 0))) else TZ (Limbs.eval r)]
+  | None => [TZ (-1)]
+  end.
